@@ -9,7 +9,7 @@ from .c02 import assignments, assignments_k, WIDE, VERYWIDE, verywide_assignment
 CFGS = {'C': 'Clone', 'CC': 'Copy, Clone', 'CC2': 'Clone, Copy'}
 
 
-def build(shape, assign, cfg, ctx='alone'):
+def build(shape, assign, cfg, ctx='alone', bound=None):
     copy = cfg != 'C'
     has_method = any('m' in a for a in assign)
     tys, fattrs = [], []
@@ -27,6 +27,8 @@ def build(shape, assign, cfg, ctx='alone'):
         tys.append(t)
         fattrs.append(a)
     traits = CFGS[cfg]
+    if bound:
+        traits = traits.replace('Clone', 'Clone(%s)' % bound)
     if ctx != 'alone':
         traits = ('Debug, ' + traits) if ctx.endswith('before') else (traits + ', Debug')
     src = S.render_type(shape, ['#[educe(%s)]' % traits], tys, fattrs, derives='Educe')
@@ -72,7 +74,7 @@ def build(shape, assign, cfg, ctx='alone'):
         src += '    r.ck(!probe!(Ty: Copy), 21, &|| "the type is Copy although Copy is not educed".to_string());\n'
     src += '}\n'
     depth = sum(1 for a in assign for ch in a if ch != 'o') + (cfg != 'C') + (ctx != 'alone')
-    key = 'C07|%s|%s|%s%s' % (cfg, shape.code(), ','.join(assign), '' if ctx == 'alone' else '|' + ctx)
+    key = 'C07|%s|%s|%s%s%s' % (cfg, shape.code(), ','.join(assign), '' if ctx == 'alone' else '|' + ctx, '|' + bound if bound else '')
     return Case(key, src, {'cfg': cfg, 'shape': shape.code(), 'assign': list(assign), 'ctx': ctx, 'values': len(vals)},
                 expect='accept', run=True, depth=depth)
 
@@ -97,6 +99,12 @@ def generate(tier):
             alph = 'o' if (sh.kind == 'struct' and cfg != 'C') else 'om'
             for assign in assignments_k(sh, alph, 2 if tier == 'quick' else 3):
                 cases.append(build(sh, assign, cfg))
+    for sh in S.struct_shapes(2) + S.enum_shapes(2, 2):
+        for cfg in CFGS:
+            alph = 'o' if (sh.kind == 'struct' and cfg != 'C') else 'om'
+            for assign in assignments(sh, alph):
+                for bound in ('bound = false', 'bound(*)', 'bound(u8: Copy)', 'bound = ""'):
+                    cases.append(build(sh, assign, cfg, bound=bound))
     for sh in VERYWIDE:
         for cfg in ('C', 'CC'):
             alph = 'o' if (sh.kind == 'struct' and cfg != 'C') else 'om'
@@ -127,7 +135,7 @@ def generate(tier):
 
 
 RULE = ('wide shapes (5-6 fields, 5-6 variants) with at most 2 (thorough 3) method fields; every struct/enum shape within the bound x {own Clone, method} per field x {Clone; Copy, Clone; Clone, Copy} '
-        '(+ unions with Copy, Clone) x attribute contexts; fields are an instrumented Copy type whose Clone marks its result '
+        '(+ unions with Copy, Clone) x attribute contexts x type-level Clone bound parameters (the type is concrete, so every bound mode must leave behaviour and Copy-ness unchanged); fields are an instrumented Copy type whose Clone marks its result '
         'and counts calls, the custom method marks differently; per program clone() of every value (variant, values, marks, '
         'exact call counts, source untouched) and a.clone_from(&b) for every ordered pair (result equals the modelled '
         'b.clone(), exact call counts); Copy probed at compile time; with Copy and no method in use clone must be bitwise '
